@@ -54,6 +54,8 @@ VARIABLES heldB,     \* heldB[o]: number of handles B's program holds on its pro
           n
 ivars == <<heldB, gen, seenGen, echoes, n>>
 IInit == heldB = [o \in Objs |-> 0] /\ gen = [o \in Objs |-> 0] /\ seenGen = <<>> /\ echoes = <<>> /\ n = 0
+\* (B's proxy for o is identified by <<o, gen[o]>>: two different objects never share a proxy whatever they say about
+\*  themselves - the replay runs these histories also for two classes of one qualified name and for a class and its instance)
 \* A sends o (alone or inside a tuple) and B keeps what it receives
 SendObj(o) == /\ n < MaxSteps /\ n' = n + 1
               /\ gen' = IF heldB[o] = 0 THEN [gen EXCEPT ![o] = @ + 1] ELSE gen     \* cached proxy reused while alive
